@@ -187,8 +187,8 @@ def check(ctx):
     ctx.rule("R01.1", "continuity: D(Js+Jn) - B mu_b == 0 as operator words, using mu = L^-1 rhs and L = D G", 2)
     ctx.rule("R01.2", "mu_laplacian == divergence @ mu_gradient with no fixed rows and no link variable", 1)
     ctx.rule("R01.3", "boundary-flux columns integrate to the boundary edge length; row zeroing unreachable from the solver", 2)
-    ctx.rule("R01.4", "terminal current density == -(1/L_t) sum_{other terminals} I, stored on exactly the terminal's boundary edges; "
-                      "L_t sums edge lengths over the same boundary-edge set", 4)
+    ctx.rule("R01.4", "terminal current density == -(1/L_t) sum_{other terminals} I on exactly the terminal's boundary edges, for every "
+                      "terminal and every outcome of the change-detection cache (3 terminals, 8 paths); L_t sums edge lengths over the same boundary-edge set", 9)
     ctx.rule("R01.5", "current scale J_scale = 4 (current_units/length_units)/K0, applied once to the user's currents", 2)
     ctx.rule("R01.6", "the balance test on the summed currents is a tolerance test, not an exact-zero test on a float sum", 1)
 
@@ -249,40 +249,73 @@ def check(ctx):
 
 
 def terminal_density(ctx):
+    """Interpret update_mu_boundary for three terminals over every outcome of the change-detection test."""
+    import itertools
     repo = ctx.repo
     f = repo.func(SOLVER, "TDGLSolver.update_mu_boundary")
-    T, ip = new_interp(repo)
-    I = {n: T.real(f"I_{n}") for n in ("T", "O1", "O2")}
-    Lt = T.real("L_T", "pos")
-    term = Obj(None, {"name": "T", "length": Lt, "boundary_edge_indices": Idx("tb", "tbedge", "bedge")}, label="terminal")
-    mub = StoreLog("mu_boundary")
-    cache = {"T": Opaque("old density")}
-    seen_t = []
-    me = Obj(repo.cls(SOLVER, "TDGLSolver"), {
-        "current_func": PyFunc(lambda t: (seen_t.append(t), dict(I))[1]),
-        "terminal_current_densities": cache, "terminal_info": [term],
-        "terminal_names": ["O1", "T", "O2"], "mu_boundary": mub}, label="solver")
-    ip.branch_policy = lambda test, fr: True
-    tm = T.real("time")
-    ip.call_function(f, [me, tm], {})
-    expected = -(I["O1"] + I["O2"]) / Lt
-    ok = len(mub.stores) == 1 and isinstance(mub.stores[0][1], Rat) and mub.stores[0][1] == expected
-    ctx.ob("R01.4", "mu_boundary[terminal edges] = -(1/L_t) * sum of the *other* terminals' currents", ok,
-           detail={"stored": [(repr(i), str(v)) for i, v in mub.stores], "expected": str(expected),
-                   "balanced_equivalent": "I_t / L_t"}, where=f.fq, construct="current_density",
-           loc=loc(f, f.node), message=f"terminal current density stored is {[(repr(i), str(v)) for i, v in mub.stores]}",
-           consequence="the current entering through the terminal is not the requested current (wrong sign, own current included, or wrong length)")
-    ok = len(mub.stores) == 1 and isinstance(mub.stores[0][0], Idx) and mub.stores[0][0].name == "tb"
-    ctx.ob("R01.4", "stored on exactly terminal.boundary_edge_indices", ok,
-           detail=[repr(i) for i, _ in mub.stores], where=f.fq, construct="mu_boundary index", loc=loc(f, f.node),
-           message="the density is stored on a different index set than the terminal's boundary edges",
-           consequence="current is injected through edges outside the terminal")
-    ok = isinstance(cache.get("T"), Rat) and cache["T"] == expected and seen_t == [tm]
-    ctx.ob("R01.4", "the change-detection cache stores the quantity it compares, evaluated at the step's time", ok,
-           detail={"cache": str(cache.get("T")), "times": [str(t) for t in seen_t]}, where=f.fq,
-           construct="terminal_current_densities cache", loc=loc(f, f.node),
-           message="the cached density differs from the one written to mu_boundary",
-           consequence="a changed terminal current is not propagated to the boundary condition")
+    names = ["T1", "T2", "T3"]
+    n_paths = 0
+    for decisions in itertools.product([False, True], repeat=3):     # True: "cached value equals the new density"
+        T, ip = new_interp(repo)
+        I = {n: T.real(f"I_{n}") for n in names}
+        L = {n: T.real(f"L_{n}", "pos") for n in names}
+        terms = [Obj(None, {"name": n, "length": L[n], "boundary_edge_indices": Idx(f"tb_{n}", f"tbedge_{n}", "bedge")}, label=n)
+                 for n in names]
+        mub = StoreLog("mu_boundary")
+        expected = {n: -sum((I[m] for m in names if m != n), Rat.const(T, 0)) / L[n] for n in names}
+        # a cache entry that "equals" the new density is that very term; otherwise an unrelated old value
+        cache = {n: (expected[n] if eq else T.real(f"old_{n}")) for n, eq in zip(names, decisions)}
+        seen_t = []
+        me = Obj(repo.cls(SOLVER, "TDGLSolver"), {
+            "current_func": PyFunc(lambda t, _I=I, _s=seen_t: (_s.append(t), dict(_I))[1]),
+            "terminal_current_densities": cache, "terminal_info": terms,
+            "terminal_names": [names[1], names[0], names[2]], "mu_boundary": mub}, label="solver")
+
+        def policy(test, fr, _T=T, _ip=ip):
+            # decide `x != y` / `x == y` between two terms by exact equality of normal forms
+            if isinstance(test, ast.Compare) and len(test.ops) == 1 and isinstance(test.ops[0], (ast.Eq, ast.NotEq)):
+                a, b = _ip.eval(test.left, fr), _ip.eval(test.comparators[0], fr)
+                if isinstance(a, Rat) and isinstance(b, Rat):
+                    eq = a == b
+                    return eq if isinstance(test.ops[0], ast.Eq) else not eq
+            return None
+        ip.branch_policy = policy
+        tm = T.real("time")
+        try:
+            ip.call_function(f, [me, tm], {})
+        except Unsupported as e:
+            raise AnalysisError(f"update_mu_boundary outside the supported fragment: {e}")
+        n_paths += 1
+        stored = {}
+        for idx, val in mub.stores:
+            if isinstance(idx, Idx) and idx.name.startswith("tb_"):
+                stored[idx.name[3:]] = val
+            else:
+                stored[repr(idx)] = val
+        bad = []
+        for n in names:
+            # after the call the boundary condition of every terminal must be the density of *this* step:
+            # either it was (re)written now, or the cache said it already held exactly that value
+            held = (n in stored and isinstance(stored[n], Rat) and stored[n] == expected[n]) or \
+                   (n not in stored and isinstance(cache.get(n), Rat) and cache[n] == expected[n] and dict(zip(names, decisions))[n])
+            cache_ok = isinstance(cache.get(n), Rat) and cache[n] == expected[n]
+            if not held:
+                bad.append(f"{n}: boundary value {'= ' + str(stored[n]) if n in stored else 'left untouched'}, required {expected[n]}")
+            elif not cache_ok:
+                bad.append(f"{n}: cache holds {cache.get(n)} after the update, required {expected[n]}")
+        extra = [k for k in stored if k not in names]
+        desc = ", ".join(f"{n}:{'same' if d else 'changed'}" for n, d in zip(names, decisions))
+        ctx.ob("R01.4", f"every terminal carries -(1/L_t) * sum of the other terminals' currents after update_mu_boundary [{desc}]",
+               not bad and not extra and seen_t == [tm],
+               detail={"stored": {k: str(v) for k, v in stored.items()}, "problems": bad, "other_stores": extra},
+               nontrivial=not all(decisions), where=f.fq, construct="terminal boundary condition after update_mu_boundary",
+               loc=loc(f, f.node),
+               message=f"with change pattern [{desc}] the boundary condition is wrong: {bad or extra}",
+               consequence="the current entering through a terminal is not the requested current (wrong sign, own current included, "
+                           "wrong length, or a terminal left at its previous value when another terminal's current did not change)",
+               witness={"change_pattern": desc, "problems": bad})
+    ctx.note("update_mu_boundary_paths", n_paths)
+    repo = ctx.repo
     # terminal length and boundary edge set agree (Device.terminal_info)
     ft = repo.func(DEVICE, "Device.terminal_info")
     fn = ft.node
